@@ -345,6 +345,8 @@ func (be *batchedEntries) record(wb kv.IWriteBatch,
 	return maxIndex
 }
 
+var errNoSuchBatch = errors.New("no such entry")
+
 func (be *batchedEntries) getBatchFromDB(shardID uint64,
 	replicaID uint64, batchID uint64) (pb.EntryBatch, bool) {
 	var e pb.EntryBatch
@@ -353,11 +355,17 @@ func (be *batchedEntries) getBatchFromDB(shardID uint64,
 	k.SetEntryBatchKey(shardID, replicaID, batchID)
 	if err := be.kvs.GetValue(k.Key(), func(data []byte) error {
 		if len(data) == 0 {
-			return errors.New("no such entry")
+			return errNoSuchBatch
 		}
 		pb.MustUnmarshal(&e, data)
 		return nil
 	}); err != nil {
+		if !errors.Is(err, errNoSuchBatch) {
+			// a storage error is not a missing batch: treating it as one makes
+			// the caller replace the stored batch with the new entries only and
+			// report the save as successful
+			panic(err)
+		}
 		return e, false
 	}
 	if len(e.Entries) > 1 {
